@@ -440,7 +440,11 @@ func distCase(c *Case, lean *LeanDriver) Verdict {
 	ctx, cancel := bg()
 	defer cancel()
 	// as in the repository's own tests, the local queryable of the distributed engine is the union
+	drainContract()
 	dist := c.Exec(ctx, de, NewMemStorage(c.Data()))
+	// the stream contract of every operator of the coordinator and of the remote engines
+	// (remote execution operators included)
+	v.Contract = drainContract()
 	if notNative(dist) {
 		// the coordinating engine cannot run the rewritten plan itself (e.g. hour(), which is not
 		// distributed and not supported natively): as deployed, it hands the query to its fallback
